@@ -5,8 +5,13 @@ scripted and records one token per interaction into a common log:
 
 * the local device: a `nfc.clf.device.Device` subclass installed through
   `nfc.clf.device.connect` (tokens mute sA sB sF sD lA lB lF lD on off xr:<id> xl:<id>),
-* `nfc.tag.activate` (act), `nfc.tag.emulate` (emu),
-  `LogicalLinkController.activate` (la:t / la:i) and the `run` it installs (run),
+* `nfc.tag.activate` is the REAL one of the tree under test (and with it the real activation code
+  of tt1/tt2/tt2_nxp/tt3/tt4): the call is logged (act, consumes nothing), the commands it sends
+  are `frontend.exchange()` calls (xr:<id>) and nested `frontend.sense()` calls on the scripted
+  device; only `Tag.is_present` is a stand-in (one `frontend.exchange()`),
+* `nfc.tag.emulate` is the REAL one too (logged as emu, consumes nothing): a real
+  `Type3TagEmulation` (its `send_response` is one `frontend.exchange()`) or None,
+* `LogicalLinkController.activate` (la:t / la:i) and the `run` it installs (run),
 * the `terminate` callable (t0 / t1), `time.sleep` (sleep), the option callbacks
   (cb:<role>:<kind>:<code>).
 
@@ -17,8 +22,11 @@ agree with the Lean model (Model/Connect.lean) which counts the same way.
 
 Answers (token syntax shared with lean/Drv/C18.lean):
   0            nothing (None / False / normal return)
-  F.<sens>.<rid>.<p2p>.<atrlen>   something found / present / activated
+  F.<sens>.<rid>.<p2p>.<atrlen>[.<var>]   something found / present / activated; as the answer of an
+               exchange <sens> is the response data.  var (Type A answers): bit 0 = SEL_RES bit 5
+               (ISO-DEP, Type 4A Tag), bit 1 = SDD_RES starts with 08h instead of NXP's 04h
   c  CommunicationError (TimeoutError)      k  BrokenLinkError
+  T  TransmissionError                      P  ProtocolError   (sense_* and exchanges; elsewhere nothing)
   u  UnsupportedTargetError                 i  IOError(EIO)
   K  KeyboardInterrupt                      X  SystemExit (run only)
   L  BrokenLinkError raised inside listen_* (F30; other sites: nothing)
@@ -40,9 +48,10 @@ def val_truthy(code):
 
 def parse_answer(tok):
     if tok.startswith("F."):
-        _, sens, rid, p2p, atr = tok.split(".")
+        parts = tok.split(".")
+        _, sens, rid, p2p, atr = parts[:5]
         return ("F", bytes.fromhex(sens) if sens != "-" else b"", bytes.fromhex(rid) if rid != "-" else b"",
-                p2p == "1", int(atr))
+                p2p == "1", int(atr), int(parts[5]) if len(parts) > 5 else 0)
     if tok.startswith("p"):
         return ("p", int(tok[1:]))
     return (tok,)
@@ -50,10 +59,19 @@ def parse_answer(tok):
 
 def answer_token(a):
     if a[0] == "F":
-        return "F.%s.%s.%d.%d" % (a[1].hex() or "-", a[2].hex() or "-", 1 if a[3] else 0, a[4])
+        return "F.%s.%s.%d.%d" % (a[1].hex() or "-", a[2].hex() or "-", 1 if a[3] else 0, a[4]) + \
+            (".%d" % a[5] if len(a) > 5 and a[5] else "")
     if a[0] == "p":
         return "p%d" % a[1]
     return a[0]
+
+
+class Runaway(BaseException):
+    """raised by the scripted world when a run does not end (the history exceeds LIMIT events):
+    a BaseException, so that no handler of the code under test absorbs it"""
+
+
+LIMIT = 4000
 
 
 class World(object):
@@ -69,10 +87,15 @@ class World(object):
         self.cb_args = []       # (role, kind, argument object)
         self.objects = {}       # id -> created object
         self.trace = []         # [token, object produced or None, exception class raised or None] per scripted call
+        self.tags = []          # Tag objects the real nfc.tag.activate returned
+        self.act_targets = []   # the targets nfc.tag.activate was called with
+        self.commands = []      # command frames seen by send_cmd_recv_rsp (real-tag runs)
         self.link = []          # NFC-DEP exchanges of the real link loop (real-LLC runs)
         self.activations = []   # (log position, success) of every NFC-DEP activation attempt (real-LLC runs)
 
     def pop(self, site):
+        if len(self.log) > LIMIT:
+            raise Runaway("more than %d events, last: %s" % (LIMIT, " ".join(self.log[-6:])))
         a = self.env.pop(0) if self.env else ("0",)
         i = self.n
         self.n += 1
@@ -93,6 +116,8 @@ class World(object):
             raise KeyboardInterrupt()
 
     def terminate(self):
+        if len(self.log) > LIMIT:
+            raise Runaway("more than %d events, last: %s" % (LIMIT, " ".join(self.log[-6:])))
         b = self.ts.pop(0) if self.ts else True
         self.log.append("t1" if b else "t0")
         return b
@@ -158,6 +183,12 @@ def make_classes(nfc, world):
             if a[0] == "k":
                 w.note(tok, "BrokenLinkError")
                 raise nfc.clf.BrokenLinkError("scripted")
+            if a[0] == "T":
+                w.note(tok, "TransmissionError")
+                raise nfc.clf.TransmissionError("scripted")
+            if a[0] == "P":
+                w.note(tok, "ProtocolError")
+                raise nfc.clf.ProtocolError("scripted")
             if a[0] == "u":
                 w.note(tok, "UnsupportedTargetError")
                 raise nfc.clf.UnsupportedTargetError("scripted")
@@ -166,7 +197,8 @@ def make_classes(nfc, world):
         def sense_tta(self, target):
             return self._sense("sA", target, lambda a: nfc.clf.RemoteTarget(
                 target.brty, sens_res=bytearray(a[1]), rid_res=(bytearray(a[2]) if a[2] else None),
-                sel_res=bytearray([0x60 if a[3] else 0x00]), sdd_res=bytearray(b"\x04\x01\x02\x03\x04\x05\x06")))
+                sel_res=bytearray([(0x40 if a[3] else 0x00) | (0x20 if a[5] & 1 else 0x00)]),
+                sdd_res=bytearray((b"\x08" if a[5] & 2 else b"\x04") + b"\x01\x02\x03\x04\x05\x06")))
 
         def sense_ttb(self, target):
             return self._sense("sB", target, lambda a: nfc.clf.RemoteTarget(
@@ -205,7 +237,10 @@ def make_classes(nfc, world):
             return self._listen("lB", target, lambda a: nfc.clf.LocalTarget(target.brty))
 
         def listen_ttf(self, target, timeout):
-            return self._listen("lF", target, lambda a: nfc.clf.LocalTarget(target.brty, tt3_cmd=bytearray(b"\x06" + bytes(8))))
+            # p2p flag of the answer: the driver captured no Type 3 Tag command
+            return self._listen("lF", target, lambda a: nfc.clf.LocalTarget(
+                target.brty, sensf_res=bytearray(target.sensf_res or (b"\x01" + bytes(18))),
+                tt3_cmd=(bytearray() if a[3] else bytearray(b"\x06" + bytes(8)))))
 
         def listen_dep(self, target, timeout):
             return self._listen("lD", target, lambda a: nfc.clf.LocalTarget(
@@ -217,10 +252,16 @@ def make_classes(nfc, world):
             a, i = self._simple(tok)
             w = W()
             if a[0] == "F":
-                return bytearray(b"\x00")
+                return bytearray(a[1])
             if a[0] == "k":
                 w.note(tok, "BrokenLinkError")
                 raise nfc.clf.BrokenLinkError("scripted")
+            if a[0] == "T":
+                w.note(tok, "TransmissionError")
+                raise nfc.clf.TransmissionError("scripted")
+            if a[0] == "P":
+                w.note(tok, "ProtocolError")
+                raise nfc.clf.ProtocolError("scripted")
             w.note(tok, "TimeoutError")
             raise nfc.clf.TimeoutError("scripted")
 
@@ -236,48 +277,33 @@ def make_classes(nfc, world):
         def get_max_recv_data_size(self, target):
             return 290
 
-    class FakeTag(object):
-        """a tag whose presence check is one exchange() through the frontend"""
-        def __init__(self, clf, target, ident):
-            self.clf, self.target, self._id = clf, target, ident
+    def is_present(tag):
+        """stand-in for Tag.is_present: the presence check is one exchange() through the frontend"""
+        try:
+            return tag.clf.exchange(b"\x30\x00", 0.1) is not None
+        except nfc.clf.CommunicationError:
+            return False
 
-        @property
-        def is_present(self):
-            try:
-                return self.clf.exchange(b"\x30\x00", 0.1) is not None
-            except nfc.clf.CommunicationError:
-                return False
-
-    class FakeEmu(nfc.tag.TagEmulation):
-        def __init__(self, clf, target, ident):
-            self.clf, self.target, self._id = clf, target, ident
-            self.cmd = bytearray(b"\x06")
-
-        def process_command(self, cmd):
-            return None if cmd is None else bytearray(b"\x07")
-
-        def send_response(self, rsp, timeout):
-            return self.clf.exchange(rsp, timeout)
+    real_activate = nfc.tag.activate
 
     def activate(clf, target):
-        w = W()
-        w.log.append("act")
-        a, i = w.pop("act")
-        w.common_raise(a, "act")
-        if a[0] == "F":
-            w.objects[i] = FakeTag(clf, target, i)
-            return w.objects[i]
-        return None
+        """the REAL nfc.tag.activate; the call is an event of the history"""
+        W().log.append("act")
+        W().act_targets.append(target)
+        tag = real_activate(clf, target)
+        if tag is not None:
+            W().tags.append(tag)
+        return tag
+
+    real_emulate = nfc.tag.emulate
 
     def emulate(clf, target):
-        w = W()
-        w.log.append("emu")
-        a, i = w.pop("emu")
-        w.common_raise(a, "emu")
-        if a[0] == "F":
-            w.objects[i] = FakeEmu(clf, target, i)
-            return w.objects[i]
-        return None
+        """the REAL nfc.tag.emulate; the call is an event of the history"""
+        W().log.append("emu")
+        emu = real_emulate(clf, target)
+        if emu is not None:
+            W().tags.append(emu)
+        return emu
 
     def llc_activate(self, mac, **options):
         w = W()
@@ -303,7 +329,7 @@ def make_classes(nfc, world):
             return True
         return False
 
-    return FakeDevice, FakeTag, FakeEmu, activate, emulate, llc_activate
+    return FakeDevice, is_present, activate, emulate, llc_activate
 
 
 @contextlib.contextmanager
@@ -314,13 +340,15 @@ def installed(nfc, world):
     import nfc.tag
     import nfc.dep
     import nfc.llcp.llc
-    FakeDevice, FakeTag, FakeEmu, activate, emulate, llc_activate = make_classes(nfc, world)
+    FakeDevice, is_present, activate, emulate, llc_activate = make_classes(nfc, world)
     LLC = nfc.llcp.llc.LogicalLinkController
     saved = (nfc.clf.device.connect, nfc.clf.time, nfc.tag.activate, nfc.tag.emulate, LLC.activate)
+    saved_present = nfc.tag.Tag.__dict__["is_present"]
     nfc.clf.device.connect = lambda path: FakeDevice()
     nfc.clf.time = FakeTime(world)
     nfc.tag.activate = activate
     nfc.tag.emulate = emulate
+    nfc.tag.Tag.is_present = property(is_present)
     LLC.activate = llc_activate
     try:
         def new_clf():
@@ -331,6 +359,7 @@ def installed(nfc, world):
         yield new_clf
     finally:
         (nfc.clf.device.connect, nfc.clf.time, nfc.tag.activate, nfc.tag.emulate, LLC.activate) = saved
+        nfc.tag.Tag.is_present = saved_present
 
 
 class QuietTime(object):
@@ -461,8 +490,10 @@ class ConnSpec(object):
     """option record in the shape shared with the Lean driver.
 
     rdwr: None | dict(su, tg, di, co, re, it, bp)   su: '-' absent | 0 proper list | 1 [] | 2 list of str | 3 int 1 | 4 None
+                                                    | 5 the list it was given, attributes set in place (documented usage)
     llcp: None | dict(su, co, re, role)             su: '-' | 0 the llc | 1 None | 2 True           role: '-' | t | i | x
     card: None | dict(su, kind, di, co, re)         su: '-' | 0 LocalTarget(kind) | 1 None | 2 a RemoteTarget
+                                                    | 3 the LocalTarget it was given, filled in place (documented usage)
     callbacks di/co/re: '-' absent | 0..6 result code (val_of)
     """
 
@@ -504,10 +535,20 @@ def build_options(nfc, world, spec):
     if spec.rdwr is not None:
         s = spec.rdwr
         d = {"iterations": s["it"], "interval": 0.05, "beep-on-connect": bool(s["bp"])}
-        if s["su"] == "-":
+        if s["su"] in ("-", 5):
             # default on-startup: the targets come from the 'targets' strings; attributes cannot be given this way
-            d["targets"] = [{"a": "106A", "b": "106B", "f": "212F", "x": "106X"}[t[0]] for t in s["tg"]]
-        else:
+            d["targets"] = [{"a": "106A", "b": "106B", "f": "212F", "x": "106X", "d": "106A"}[t[0]] for t in s["tg"]]
+        if s["su"] == 5:
+            def on_startup_inplace(targets, tg=s["tg"]):
+                w = world[0]
+                w.log.append("cb:rdwr:startup:5")
+                w.cb_args.append(("rdwr", "startup", targets))
+                for t, tok in zip(targets, tg):
+                    ref = remote_target(nfc, tok)
+                    t.sel_req, t.atr_req = ref.sel_req, ref.atr_req
+                return targets
+            d["on-startup"] = on_startup_inplace
+        elif s["su"] != "-":
             code = int(s["su"])
 
             def on_startup(targets, code=code, tg=s["tg"]):
@@ -549,6 +590,13 @@ def build_options(nfc, world, spec):
                 w = world[0]
                 w.log.append("cb:card:startup:%s" % code)
                 w.cb_args.append(("card", "startup", target))
+                if code == 3:
+                    ref = local_target(nfc, kind)
+                    target.brty = ref.brty
+                    for k, v in ref.__dict__.items():
+                        if k != "_brty_send" and k != "_brty_recv" and not k.startswith("_"):
+                            setattr(target, k, v)
+                    return target
                 return [local_target(nfc, kind), None, nfc.clf.RemoteTarget("106A")][code]
             d["on-startup"] = card_startup
         put(d, "card", "discover", "on-discover", s["di"])
@@ -573,9 +621,9 @@ def outcome_token(nfc, world, fn):
     for (role, kind, arg) in w.cb_args:
         if kind == "connect" and arg is r:
             return "ok obj:" + role, r
-    for i, o in w.objects.items():
-        if o is r:
-            return "ok obj:" + {"FakeTag": "rdwr", "FakeEmu": "card"}.get(type(o).__name__, "?"), r
+    if any(t is r for t in w.tags):
+        import nfc.tag
+        return "ok obj:" + ("card" if isinstance(r, nfc.tag.TagEmulation) else "rdwr"), r
     import nfc.llcp.llc
     if isinstance(r, nfc.llcp.llc.LogicalLinkController):
         return "ok obj:llcp", r
